@@ -48,7 +48,7 @@ CHECKS = {
  "C04": dict(
    text="Coq theorem c04_all_traces: for EVERY initial directory, scripts, schedule at fs-operation granularity (crashes included), table sizes and retry bound, the trace of the protocol model satisfies c04_ok: after every fs operation the listed tables hold exactly the committed transactions in commit order, Add succeeds iff its transaction committed, only lock failures / rejections as errors. The model (free-monad programs in the code's order over an abstract fs) is tied on every run to the Go stack code under a deterministic scheduler: the Go trace (ops, results, snapshots) must equal the model's trace on the same schedule; the extracted c04_ok also judges every Go trace directly",
    design="6", technique="Coq proof (Hoare-style judgement per API program + global invariant over all interleavings) + trace-equality tie under a scheduler",
-   note="POSIX atomicity of O_EXCL create / rename / unlink-with-open-fd, fresh table names and the absence of I/O faults are assumptions; multi-table Additions and Clean are not in the Coq model (their traces are judged by the extracted predicates only); tables are abstracted to (range, transactions): what compaction does to records is C07"),
+   note="POSIX atomicity of O_EXCL create / rename / unlink-with-open-fd, fresh table names and the absence of I/O faults are assumptions; the model covers every API program the scheduler harness drives (open, Add, empty / failing Add, multi-table Addition incl. the refused one, CompactAll, partial-range compaction, expiry, Clean, Close, read); tables are abstracted to (range, transactions): what compaction does to records is C07"),
  "C05": dict(
    text="Coq theorem c05_all_traces (all schedules, crashes included): after every fs operation every table named in tables.list exists, ranges strictly increasing, and no successful remove hits a listed table; tie and direct judging of Go traces as C04",
    design="6", technique="Coq proof (global invariant; dropped ids are never re-listed) + trace-equality tie under a scheduler",
